@@ -149,6 +149,12 @@ func nestedOwnersPart(run *report.Run, st *e1.Setup) {
  {"name":"globber","inputs":["assets/**/*.txt"],"command":"%s"}]}`, tr("//app:bundle"), tr("//app:image"), tr("//app:globber")))
 	mk("app/assets/BUILD.json", fmt.Sprintf(`{"targets":[{"name":"sprites","inputs":["logo.txt"],"command":"cp logo.txt sprites.out; %s","outputs":["sprites.out"]},{"name":"other","inputs":["unrelated.txt"],"command":"%s"}]}`, tr("//app/assets:sprites"), tr("//app/assets:other")))
 	mk("app/assets/deep/BUILD.json", fmt.Sprintf(`{"targets":[{"name":"d","inputs":["*.txt"],"command":"%s"}]}`, tr("//app/assets/deep:d")))
+	// a target whose name is as long as a file name may get (its log file still fits, the names
+	// derived from "package:name" do not): bookkeeping that cannot stat such a name must not turn
+	// into "rebuild it every time"
+	long := "l" + strings.Repeat("x", 247)
+	mk("longpkgname/BUILD.json", fmt.Sprintf(`{"targets":[{"name":%q,"inputs":["x.txt"],"command":"%s"}]}`, long, tr("//longpkgname:LONG")))
+	mk("longpkgname/x.txt", "x\n")
 	mk("app/assets/logo.txt", "logo v1\n")
 	mk("app/assets/unrelated.txt", "u\n")
 	mk("app/assets/deep/more.txt", "more v1\n")
@@ -200,6 +206,10 @@ func nestedOwnersPart(run *report.Run, st *e1.Setup) {
 	if res := m.Run([]string{"build", "//..."}, grog.RunOpts{Build: "b0", Timeout: 60 * time.Second}); res.Exit != 0 {
 		run.Inconclusive("nested-owners workspace did not build: " + tailS(res.Stdout+res.Stderr, 200))
 		return
+	}
+	// a taint placed and consumed before the edits (the cache's taint area exists from now on)
+	if res := m.Run([]string{"taint", "//app:image"}, grog.RunOpts{Build: "t", Timeout: 30 * time.Second}); res.Exit == 0 {
+		_ = m.Run([]string{"build", "//..."}, grog.RunOpts{Build: "b0t", Timeout: 60 * time.Second})
 	}
 	for _, f := range []string{"app/assets/logo.txt", "app/assets/deep/more.txt"} {
 		_ = os.Remove(trace)
